@@ -316,6 +316,13 @@ func genUndo(g *prng.R) c06Case {
 			sc.Remote[oid] = sim.RemoteSpec{Doc: M{"@context": AS, "type": "Like", "id": oid, "object": L + "/notes/1"}}
 			covered = true // no actor to cover; whether such an Undo is taken is left open
 			either = true
+		case 2: // its document is of a type the vocabularies do not define
+			sc.Remote[oid] = sim.RemoteSpec{Doc: M{"@context": AS, "type": "EmojiReact", "id": oid, "actor": al, "object": L + "/notes/1"}}
+			if byIRI {
+				covered = false // the actors of such a document cannot be read
+			} else {
+				either = true
+			}
 		}
 		if !covered {
 			ok = false
